@@ -81,6 +81,11 @@ class _AliasTracker:
         if not refs:
             return True  # nothing registered → writable
 
+        # CPython has a single empty tuple: every empty vector "shares" it,
+        # but there is nothing in it that a write could leak.
+        if tuple_id == id(()):
+            return True
+
         # drop dead weakrefs
         alive = self._cleanup_dead_refs(refs)
         self._registry[tuple_id] = alive
